@@ -109,7 +109,7 @@ namespace hs
         void op_top(int which);
         void op_unwind(int which, long long m, bool replay);
         void op_next(int which);
-        void op_shrink(int which);
+        void op_shrink(int which, long long depth = 0);
         void op_move(int which, int where);
         void op_move_assign(int dir);
         void op_swap();
